@@ -100,8 +100,10 @@ prop('C07', title='Packet decoders accept exactly the well-formed packets', leve
 prop('C08', title='TLV models encode to exact, minimal TLV and decode back to equal values', level='proof', bounded=[('bounded.c08', 'run', SH)],
      level_text='Unbounded proof that var-numbers are written in shortest form, that every integer/boolean/byte-string/text field announces '
                 'exactly the size it then writes (smallest legal integer width, UTF-8 length for text), that the generic encoded_length/encode '
-                'drivers write the fields in declared order at consecutive offsets with total == announced for ANY field list, and that parse '
-                'skips unknown non-critical and rejects unknown critical elements.',
+                'drivers write the fields in declared order at consecutive offsets with total == announced for ANY field list, that parse '
+                'skips unknown non-critical and rejects unknown critical elements, and that RepeatedField / MapField over ANY number of '
+                'values announce the sum of their element sizes, encode every element (key then value) once, in order, at consecutive '
+                'offsets touching nothing else, and append / store parsed elements without disturbing earlier ones.',
      level_note='Trusted: pyvc, z3, builtin models, the prefix-sum ghost axioms. Model-level parse(encode(m)) == m for generated classes is a '
                 'bounded stand-in, not part of the proof.',
      technique=T_DEDUCTIVE)
